@@ -9,6 +9,7 @@ from ..symx import ite, sand, sor, snot, smax, smin, sabs, is_sym
 
 F = fractions.Fraction
 META = {
+    "technique": "SMT-decided induction lemmas regenerated from the AST of get_sqrt_ratio_at_tick on every run (per-step error lemmas, composition, final conversion, monotonicity; z3, exact integer/rational arithmetic) plus symbolic execution of the real tick/price helpers with z3 (float log as an uninterpreted function with an enclosure contract); counterexamples replayed on the unpatched code",
     "level": "model_checking",
     "level_text": "(a) get_sqrt_ratio_at_tick for ALL ticks by induction over the step list extracted from its AST on every run: exact integer "
     "obligations that every magic constant is within 1/2 unit of 2^128*1.0001^(-2^k/2), z3 lemmas (linear real/integer arithmetic, "
